@@ -36,6 +36,7 @@ declare -A PROP=(
  ["a Collection subscriber skips the events of writes"]="C03"
  ["wrap guards a stream's trailer"]="C11"
  ["trait model Pull adapters stop with their context"]="C10"
+ ["a bus Send that runs out of time at one listener"]="C10"
 )
 git -C /repo log --format='%h %s' | grep ' fix: ' | while read -r h subj; do
   prop=""
